@@ -27,7 +27,10 @@ tie:    hand-written model  <->  Array::operator()(int / index expression / rang
         A(S0,S1,..) on the current view of rank 1..4 with every S a scalar / range / stride / __ / intVector / integer
         vector expression (tmp+2, end-tmp and the shapes VSHAPES: k-idx, idx*k, (end-idx)/k, idx+idx, k+idx, k*idx, idx/k,
         idx-k, end-idx*k, (k-idx)-end, k/idx, min(idx,k), max(k,idx)), at least one vector; the argument-type patterns are
-        a menu compiled once, the values come from the stream.  Answer: rank, extents, the values read by B = A(..), the
+        a menu compiled once, the values come from the stream.  The intVector of a selector is dense or itself a VIEW
+        (layout prefix of the entry list: strided / reversed / offset part of a larger intVector, column / row of an
+        intMatrix; Array::value_with_len_ must step with the view's offset) or a FixedArray<int,false,3> (selector f:).
+        Answer: rank, extents, the values read by B = A(..), the
         diff of the whole parent allocation after A(..) = V (fresh values) and after A(..) = -7.  In the bounds-checked
         build also: entries n, n+1, -1 at every position of every index vector, bad scalars and range end points.
 oracle: the composed index map evaluated element by element in Python (a view is the list of parent cells it
@@ -452,15 +455,17 @@ IX_PARTNER = "IERAV"        # partners of a vector expression U<n> (n < NVMENU2)
 def ix_letter(a):
     """letter of the C++ argument type the harness uses for selector token a (None: malformed / not in any menu):
     I int, E end-k, r range of ints, R range with an `end` end point, A __, V intVector, X tmp+2, W end-tmp,
-    U<n> vector expression number n of VSHAPES, Y<n> rich scalar expression number n of XSHAPES"""
+    U<n> vector expression number n of VSHAPES, Y<n> rich scalar expression number n of XSHAPES, F FixedArray<int,false,3>"""
     if a == "_":
         return "A"
-    if a[:2] in ("v:", "x:", "w:"):
-        return a[0].upper()
     try:
+        if a[:2] in ("v:", "x:", "w:"):
+            return a[0].upper() if layout_ok(a[2:]) else None
+        if a.startswith("f:"):
+            return "F" if "|" not in a and len(ints_of(a[2:])) == 3 else None
         if a.startswith("u:"):
             p = a[2:].split(":")
-            if len(p) != 2:
+            if len(p) != 2 or not layout_ok(p[1]):
                 return None
             sh = px_shape(px_parse(p[0]))
             return "U%d" % VSHAPES.index(sh) if sh in VSHAPES else None
@@ -478,7 +483,7 @@ def ix_letter(a):
 
 
 def ix_is_vec(l):
-    return l in ("V", "X", "W") or l.startswith("U")
+    return l in ("V", "X", "W", "F") or l.startswith("U")
 
 
 def ix_compiled(letters):
@@ -490,8 +495,8 @@ def ix_compiled(letters):
         return True
     if r == 2:
         f, l = letters
-        plain = lambda x: len(x) == 1
-        u2 = lambda x: x.startswith("U") and int(x[1:]) < NVMENU2
+        plain = lambda x: x in tuple("IErRAVXW")
+        u2 = lambda x: x == "F" or (x.startswith("U") and int(x[1:]) < NVMENU2)
         return ((plain(f) and plain(l)) or (u2(f) and l in IX_PARTNER) or (u2(l) and f in IX_PARTNER)
                 or (f.startswith("Y") and l == "V") or (l.startswith("Y") and f == "V"))
     if r == 3:
@@ -505,7 +510,27 @@ def ix_compiled(letters):
 
 
 def ints_of(t):
+    """entry list `a,b,c`, possibly behind a layout prefix `L|` (the index vector is then a VIEW holding these entries in
+    index order: sOFF.STR strided / reversed / offset part of a larger intVector, cK.NC / rK.NR column / row of an
+    intMatrix; a view of an index vector is just another entry list, so the oracle ignores the layout)"""
+    t = t.split("|")[-1]
     return [int(x) for x in t.split(",")] if t else []
+
+
+def layout_ok(t):
+    """is the layout prefix of an entry list (if any) one the harness can build? (ValueError if malformed)"""
+    if "|" not in t:
+        return True
+    lay, ent = t.split("|")
+    n = len(ints_of(ent))
+    if lay[:1] not in ("s", "c", "r"):
+        raise ValueError(t)
+    p, q = [int(x) for x in lay[1:].split(".")]
+    if n == 0:
+        return True
+    if lay[0] == "s":
+        return q != 0 and 0 <= p <= 4096 and 0 <= p + (n - 1) * q <= 4096
+    return 1 <= q <= 64 and 0 <= p < q
 
 
 def oracle_ix(v, w, checked, kind="P"):
@@ -526,7 +551,7 @@ def oracle_ix(v, w, checked, kind="P"):
                 sels.append((False, list(range(L))))
             elif a.startswith("i:"):
                 sels.append((True, [tok(a[2:], L)]))
-            elif a[0] in "vx":
+            elif a[0] in "vxf":
                 sels.append((False, ints_of(a[2:])))
             elif a[0] == "w":
                 sels.append((False, [L - 1 - k for k in ints_of(a[2:])]))       # end - K
@@ -852,6 +877,20 @@ def rich_token(rng, target, L, limit, stats=None, role="scalar"):
                 stats["rich_%s_shape_%s" % (role, XSHAPES[i])] = stats.get("rich_%s_shape_%s" % (role, XSHAPES[i]), 0) + 1
             return px_fill(XSHAPES[i], c)
     return None
+
+
+def index_layout(rng, n):
+    """a layout for an index vector of n entries that is a VIEW: strided / reversed / offset part of a larger intVector
+    (sOFF.STR), column of an intMatrix (cK.NC), row of an intMatrix (rK.NR)"""
+    k = rng.random()
+    if k < 0.65:
+        st = rng.choice([2, 2, 3, -1, -1, -2, -3, 1])
+        off = rng.randrange(0, 4) if st > 0 else (n - 1) * (-st) + rng.randrange(0, 3)
+        if st == 1 and off == 0:
+            off = 2
+        return "s%d.%d" % (off, st)
+    m = rng.randint(2, 4)
+    return "%s%d.%d" % ("c" if k < 0.9 else "r", rng.randrange(m), m)
 
 
 def vexpr_token(rng, targets, L, ids, stats=None):
@@ -1322,6 +1361,24 @@ class Gen:
                     args = out
                     self.count("ix_rank%d_rewritten_%s" % (r, "scalar" if a.startswith("i:") else "vector"))
                     break
+        # the index vector itself as a view / a FixedArray (value-preserving: the selector denotes the same entries)
+        for k, a in enumerate(args):
+            if a[:2] not in ("v:", "x:", "w:", "u:") or a.endswith(":") or "|" in a:
+                continue
+            if a.startswith("v:") and a.count(",") == 2 and r <= 2 and rng.random() < 0.3:
+                out = list(args)
+                out[k] = "f:" + a[2:]
+                l2 = [ix_letter(x) for x in out]
+                if None not in l2 and ix_compiled(l2):
+                    args = out
+                    self.count("ix_index_vector_FixedArray")
+                    continue
+            if rng.random() < 0.5:
+                head, ent = a[:a.rindex(":") + 1], a[a.rindex(":") + 1:]
+                lay = index_layout(rng, ent.count(",") + 1)
+                args[k] = head + lay + "|" + ent
+                self.count("ix_index_vector_view_" + {"s": "strided", "c": "matrix_column", "r": "matrix_row"}[lay[0]]
+                           + ("_reversed" if lay[0] == "s" and "-" in lay else ""))
         if rng.random() < self.p_const:
             self.count("const_ix")
             return "cix " + " ".join(args), "ix"
@@ -1482,6 +1539,71 @@ def systematic_malformed_ix():
                         a = list(base)
                         a[j] = t
                         out.append(head + ["ix " + " ".join(a), "softlink"])
+    return out
+
+
+INDEX_LAYOUTS = ("s0.2", "s1.3", "s2.-1", "s6.-2", "s3.1", "c1.3", "c0.2", "r1.2")
+
+
+def index_view_sweep(rng, checked, stats):
+    """index vectors that are themselves VIEWS (seed C06_8: Array::value_with_len_ must step with the view's own offset):
+    for ranks 1..4, every argument-type pattern of IX_SYS_PATTERNS and every position holding an intVector / tmp+2 /
+    end-tmp, the vector is given as a strided (2, 3), reversed (-1, -2) and offset part of a larger intVector and as a
+    column / row of an intMatrix; rank 1 also every integer-vector expression shape over such a view; and a
+    FixedArray<int,false,3> as index vector (rank 1, rank 2 with every partner in either order).  The indexed array is a
+    view strictly inside a larger parent; const and non-const operator().  Bounds-checked build: also an entry n / -1."""
+    out = []
+    def add(head, args):
+        out.append(head + [("cix " if len(out) % 2 else "ix ") + " ".join(args), "softlink"])
+    for r in range(1, 5):
+        big = [5, 6, 4, 5][:r]
+        dims = [3, 4, 2, 3][:r]
+        head = ["parent %s %s" % ("rm" if r % 2 else "cm", " ".join(map(str, big))), "subset " + " ".join("1 %d" % d for d in dims)]
+        for pn, pat in enumerate(IX_SYS_PATTERNS[r]):
+            base = [ix_valid_arg(l, L, k + pn) for k, (l, L) in enumerate(zip(pat, dims))]
+            for j, (l, L) in enumerate(zip(pat, dims)):
+                if l not in IX_VEC:
+                    continue
+                for lay in INDEX_LAYOUTS:
+                    a = list(base)
+                    a[j] = base[j][:2] + lay + "|" + base[j][2:]
+                    add(head, a)
+                    stats["sweep_index_view_%s_rank%d" % (lay, r)] = stats.get("sweep_index_view_%s_rank%d" % (lay, r), 0) + 1
+                if checked:
+                    ent = ints_of(base[j][2:])
+                    for lay, q, x in (("s0.2", 1, L), ("s4.-2", 2, -1), ("c1.3", 0, L + 1)):
+                        e2 = list(ent)
+                        e2[q] = (L - 1 - x) if l == "W" else x
+                        a = list(base)
+                        a[j] = base[j][:2] + lay + "|" + ",".join(map(str, e2))
+                        add(head, a)
+    L = 10
+    pre1 = ["parent rm 11", "slice s:e0,1,-1"]
+    for sid in range(len(VSHAPES)):
+        for lay in ("s1.2", "s4.-2", "c1.2"):
+            ent = rng.sample(range(L), 3)
+            if sid == VSHAPES.index("(v+v)"):
+                ent = [2 * (x // 2) for x in ent]
+            t = vexpr_token(rng, ent, L, [sid], stats)
+            if t is not None:
+                add(pre1, [t[:t.rindex(":") + 1] + lay + "|" + t[t.rindex(":") + 1:]])
+    # FixedArray<int,false,3> as the index vector
+    pre2 = ["parent cm 6 7", "slice s:e0,1,-1 s:1,e0,2"]           # 5 x 3
+    for variant in (["ok", "ok"] + (["bad0", "bad1", "bad2"] if checked else [])):
+        ent = rng.sample(range(L), 3)
+        if variant.startswith("bad"):
+            ent[int(variant[3])] = rng.choice([-1, L, L + 1])
+        add(pre1, ["f:" + ",".join(map(str, ent))])
+        for partner in IX_PARTNER:
+            for pos in (0, 1):
+                Lv = (5, 3)[pos]
+                ent = rng.sample(range(Lv), 3)
+                if variant.startswith("bad"):
+                    ent[int(variant[3])] = rng.choice([-1, Lv])
+                args = [None, None]
+                args[pos] = "f:" + ",".join(map(str, ent))
+                args[1 - pos] = ix_valid_arg(partner, (5, 3)[1 - pos], pos + len(out))
+                add(pre2, args)
     return out
 
 
@@ -1887,9 +2009,9 @@ def shrink(ctx, exe, mode, c, what):
             continue
         args = op.split()[1:]
         for j, a in enumerate(args):
-            if a[:2] not in ("v:", "x:", "w:", "u:") or a.count(",") == 0:
+            if a[:2] not in ("v:", "x:", "w:", "u:") or a.count(",") == 0:      # (f: has exactly three entries)
                 continue
-            pre = a[:a.rindex(":") + 1]          # `v:` / `u:EXPR:`
+            pre = a[:max(a.rindex(":"), a.rfind("|")) + 1]          # `v:` / `u:EXPR:` / `v:s1.2|`
 
             def fails_entries(ent, k=k, j=j, pre=pre):
                 if budget[0] <= 0:
@@ -1984,7 +2106,7 @@ def run(ctx, replay):
         for c in probes:
             run_batch(ctx, exes[mode], mode, [c], ("default" if mode == "unchecked" else "bounds-checking") + "/fixedarray-T")
     depth = 4 if quick else 6
-    n_valid, n_valid_chk, n_malf, n_contig = (4500, 1500, 2500, 500) if quick else (150000, 36000, 64000, 8000)
+    n_valid, n_valid_chk, n_malf, n_contig = (4500, 1500, 2500, 500) if quick else (110000, 28000, 48000, 6000)
     stats = {}
     corpus = load_corpus()
     for mode, lines in corpus:
@@ -2021,6 +2143,9 @@ def run(ctx, replay):
         vsw = vexpr_sweep(ctx.rng, mode == "checked", stats)
         ctx.notes["vector_expression_sweep_cases_" + mode] = len(vsw)
         run_batch(ctx, exes[mode], mode, vsw, lab + "/vector-expression-sweep")
+        isw = index_view_sweep(ctx.rng, mode == "checked", stats)
+        ctx.notes["index_vector_view_sweep_cases_" + mode] = len(isw)
+        run_batch(ctx, exes[mode], mode, isw, lab + "/index-vector-view-sweep")
     sweep = menu_sweep()
     ctx.notes["indexed_menu_patterns"] = len(sweep)
     run_batch(ctx, exes["unchecked"], "unchecked", sweep, "default/indexed-menu")
@@ -2040,12 +2165,15 @@ def run(ctx, replay):
                        "scalar/end-k/range/__/intVector/integer-expression selectors read and assigned through; every operation "
                        "that has a const overload goes through it with probability 1/2; with probability 0.3 one argument of an "
                        "eligible call (passive arrays) is rewritten as `end` arithmetic of a random compiled shape with the same "
-                       "value, and with probability 0.45 one index vector (ranks 1-2) as an integer-vector expression; "
+                       "value, and with probability 0.45 one index vector (ranks 1-3) as an integer-vector expression; every intVector of "
+                       "an `ix` selector is with probability 1/2 a VIEW (65%% strided 2/3, reversed -1/-2/-3 or offset part of a "
+                       "larger intVector, 25%% column, 10%% row of an intMatrix) and a three-entry intVector with probability 0.3 a "
+                       "FixedArray<int,false,3>; "
                        "%d admissible compositions on the default build, %d on the "
                        "bounds-checked build, %d with out-of-range values injected per argument position on the bounds-checked "
                        "build, %d with is_contiguous() probed after every step; plus the directed sweeps (const overloads on "
                        "strided/reversed/offset receivers for every rank and kind of object; every `end`-arithmetic shape x role x "
-                       "position; every integer-vector expression x partner; counts in the notes); non-trivial = at least two "
+                       "position; every integer-vector expression x partner; every index-vector layout x pattern x position for ranks 1..4; counts in the notes); non-trivial = at least two "
                        "operations; distinct = different (mode, op list)" % (depth, n_valid, n_valid_chk, n_malf, n_contig))
     ctx.cov["exhaustive"] = False
     report_pending(ctx, fails)
